@@ -783,6 +783,11 @@ class Run:
             self.log.append(('cancel',))
             self.settle()
             return
+        if name == 'taskcancel':            # the owner of the stepping task cancels it (wait_for timeout, runner shutdown)
+            self.task.cancel()
+            self.log.append(('taskcancel',))
+            self.settle()
+            return
         if name in ('cbok', 'cbraise'):
             kind = name[2:]
             log = self.log
